@@ -121,6 +121,9 @@ func zz17Setup() (st *zz17Store, ov *overlaydb.OverlayDB, rowK, rowV, opK [][]by
 		zzsym.Assume(p != byte(scom.ST_STORAGE))
 		k := append([]byte{p}, zzsym.Bytes("row.key", zzsym.Choose("row.key.len", 3))...)
 		v := zzsym.Bytes("row.val", 1)
+		for _, earlier := range rowK {
+			zzsym.Assume(!bytes.Equal(k, earlier)) // distinct rows
+		}
 		st.Put(k, v)
 		rowK, rowV = append(rowK, k), append(rowV, v)
 	}
